@@ -222,6 +222,11 @@ theorem evalP_mono {H H' : PHandlers} (h : HLe H H') (self : Env) : ∀ (e : Exp
   | indexOf l e ih_l ih_e=> obtain ⟨ih_l, ih_l'⟩ := ih_l; obtain ⟨ih_e, ih_e'⟩ := ih_e; ecase
   | sortedBy key x l rev ih_key ih_l ih_rev=> obtain ⟨ih_key, ih_key'⟩ := ih_key; obtain ⟨ih_l, ih_l'⟩ := ih_l; obtain ⟨ih_rev, ih_rev'⟩ := ih_rev; ecase
   | typeIsS e ty ih_e=> obtain ⟨ih_e, ih_e'⟩ := ih_e; ecase
+  | construct k args ih_args=> obtain ⟨ih_args, ih_args'⟩ := ih_args; ecase
+  | dictNil => ecase
+  | dictSet d k v ih_d ih_k ih_v=> obtain ⟨ih_d, ih_d'⟩ := ih_d; obtain ⟨ih_k, ih_k'⟩ := ih_k; obtain ⟨ih_v, ih_v'⟩ := ih_v; ecase
+  | dictHas k d ih_k ih_d=> obtain ⟨ih_k, ih_k'⟩ := ih_k; obtain ⟨ih_d, ih_d'⟩ := ih_d; ecase
+  | abs e ih_e=> obtain ⟨ih_e, ih_e'⟩ := ih_e; ecase
 
 theorem evalP_le {H H' : PHandlers} (h : HLe H H') (self : Env) (e : Expr) (env : Env) (st : PState) :
     RLe (e.evalP H self env st) (e.evalP H' self env st) := (evalP_mono h self e).1 env st
